@@ -10,106 +10,98 @@ import Ctrmml.Proofs.CodecBreak
 namespace Ctrmml.Codec
 open Ctrmml.Mds Ctrmml.Seq Tables
 
-/-- **a stream at an arbitrary offset** -/
-theorem stream_at (nS nM : Nat) (ts : List Node) (hl : linL ts = true) :
+theorem afterL_eq_set (M : Mode) : ∀ ts : List Node, afterL M ts = M.set (afterL M ts).dm
+  | [] => rfl
+  | t :: ts => by
+    simp only [afterL]
+    have h := afterL_eq_set (t.after M) ts
+    have ht : (t.after M).rt = M.rt := by
+      cases t <;> simp only [Node.after] <;> try rfl
+      unfold Mode.after; split <;> rfl
+    rw [h]
+    simp only [Mode.set, ht]
+
+theorem afterL_of_dm {M : Mode} {ts : List Node} (h : (afterL M ts).dm = M.dm) : afterL M ts = M := by
+  rw [afterL_eq_set, h]; rfl
+
+/-- **a stream at an arbitrary offset**, entered in mode `M`; `top`: drum-mode switches allowed at
+the top level (a channel track) -/
+theorem stream_top_at (M : Mode) (top : Bool) (nS nM : Nat) (ts : List Node) (hl : linL ts = true)
+    (hm : mokL M top ts = true) :
     ∃ e', encL nS nM ts {} = .ok e' ∧
-      ∀ (pre : List Nat) (seq : List Nat) (base mj : Nat) (s : St),
-        pre ++ e'.out ++ [mds_FINISH] <+: seq → s.pc = pre.length → s.drum = false →
-        ∃ s1, Reach seq base mj s s1 ∧ Frame s s1 ∧ s1.pc = pre.length + e'.out.length ∧
-          seq[s1.pc]? = some mds_FINISH ∧ s1.out = (expL nS nM ts).reverse ++ s.out := by
+      ∀ (pre : List Nat) (seq : List Nat) (base mj : Nat) (s : St) {b : Nat} {r : List Nat}, M.Sound seq base mj →
+        callsOkL M seq base mj ts → b ≥ 0x80 →
+        pre ++ e'.out ++ b :: r <+: seq → s.pc = pre.length → s.drum = M.dm →
+        ∃ s1, Reach seq base mj s s1 ∧ FrameX s s1 ∧ s1.drum = (afterL M ts).dm ∧ s1.pc = pre.length + e'.out.length ∧
+          s1.out = (expL M nS nM ts).reverse ++ s.out := by
   obtain ⟨e', he', _, _, _⟩ := encL_total nS nM ts hl {}
   refine ⟨e', he', ?_⟩
-  intro pre seq base mj s hp hpc hd
+  intro pre seq base mj s b r hS hc hb hp hpc hd
   obtain ⟨e0, he0⟩ : ∃ e0 : Enc, e0 = { out := pre } := ⟨_, rfl⟩
   have hsim : SimE {} e0 := by rw [he0]; exact ⟨rfl, rfl, rfl, fun hn => by simp [noteish, mds_REST, mds_TIE] at hn⟩
   obtain ⟨e0', h0', par⟩ := encL_par nS nM ts hl {} e0 e' hsim he'
   obtain ⟨B, hB1, hB2⟩ := par.app
   have ho : e0'.out = pre ++ e'.out := by rw [hB2, hB1, he0]; simp
-  obtain ⟨x, hx, sem⟩ := encL_sim nS nM ts hl e0
+  obtain ⟨x, hx, sem⟩ := encL_sim M top nS nM ts hl hm e0
   rw [h0'] at hx; injection hx with hx; subst hx
-  have g0 : Good e0 s s.out := by
+  have g0 : Good M e0 s s.out := by
     rw [he0]
     exact ⟨fun h => absurd rfl h, fun h => absurd rfl h, hd, .inl ⟨by simp [needLenB, noteish, mds_REST, mds_TIE], hpc, rfl⟩⟩
-  have hp' : e0'.out ++ [mds_FINISH] <+: seq := by rw [ho]; exact hp
-  obtain ⟨s1, r1, f1, g1⟩ := sem seq base mj s s.out ((List.prefix_append _ _).trans hp') g0
-  obtain ⟨s2, r2, f2, i2⟩ := resolve (base := base) (mj := mj) g1 (b := mds_FINISH) (by decide) hp'
-  refine ⟨s2, r1.trans r2, f1.trans f2, ?_, ?_, i2.out⟩
-  · rw [i2.pc, ho]; simp
-  · rw [i2.pc]; exact rd_at hp'
+  have hp' : e0'.out ++ b :: r <+: seq := by rw [ho]; exact hp
+  obtain ⟨s1, r1, f1, g1⟩ := sem seq base mj s s.out hS hc ((List.prefix_append _ _).trans hp') g0
+  obtain ⟨s2, r2, f2, i2⟩ := resolve (base := base) (mj := mj) (afterL_sound hS ts) g1 hb hp'
+  refine ⟨s2, r1.trans r2, f1.trans f2.x, i2.drum, ?_, i2.out⟩
+  rw [i2.pc, ho]; simp
 
-/-- what the caller needs to know about a subroutine stream starting at `t`: entered with any
-state (drum mode off), it plays `T` and arrives at a `FINISH` with all stacks as on entry -/
-def SubPlays (seq : List Nat) (base mj t : Nat) (T : List Tk) : Prop :=
-  ∀ s0 : St, s0.pc = t → s0.drum = false →
-    ∃ s1, Reach seq base mj s0 s1 ∧ Frame s0 s1 ∧ seq[s1.pc]? = some mds_FINISH ∧ s1.out = T.reverse ++ s0.out
+/-- the same for a stream that does not change the mode (subroutines, drum routines) -/
+theorem stream_at (M : Mode) (nS nM : Nat) (ts : List Node) (hl : linL ts = true) (hm : mokL M false ts = true) :
+    ∃ e', encL nS nM ts {} = .ok e' ∧
+      ∀ (pre : List Nat) (seq : List Nat) (base mj : Nat) (s : St) {b : Nat} {r : List Nat}, M.Sound seq base mj →
+        callsOkL M seq base mj ts → b ≥ 0x80 →
+        pre ++ e'.out ++ b :: r <+: seq → s.pc = pre.length → s.drum = M.dm →
+        ∃ s1, Reach seq base mj s s1 ∧ Frame s s1 ∧ s1.pc = pre.length + e'.out.length ∧
+          s1.out = (expL M nS nM ts).reverse ++ s.out := by
+  obtain ⟨e', he', h⟩ := stream_top_at M false nS nM ts hl hm
+  refine ⟨e', he', ?_⟩
+  intro pre seq base mj s b r hS hc hb hp hpc hd
+  obtain ⟨s1, r1, f1, hd1, hpc1, ho⟩ := h pre seq base mj s hS hc hb hp hpc hd
+  rw [afterL_of_mok hm] at hd1
+  exact ⟨s1, r1, f1.frame (hd1.trans hd.symm), hpc1, ho⟩
 
 /-- (1) gives (2)'s hypothesis for a compiled subroutine placed at offset `pre.length` -/
-theorem stream_at_subPlays (nS nM : Nat) (ts : List Node) (hl : linL ts = true) :
+theorem stream_at_subPlays (M : Mode) (nS nM : Nat) (ts : List Node) (hl : linL ts = true)
+    (hm : mokL M false ts = true) :
     ∃ e', encL nS nM ts {} = .ok e' ∧
-      ∀ (pre seq : List Nat) (base mj : Nat), pre ++ e'.out ++ [mds_FINISH] <+: seq →
-        SubPlays seq base mj pre.length (expL nS nM ts) := by
-  obtain ⟨e', he', h⟩ := stream_at nS nM ts hl
-  refine ⟨e', he', fun pre seq base mj hp s0 hpc hd => ?_⟩
-  obtain ⟨s1, r1, f1, _, hfin, ho⟩ := h pre seq base mj s0 hp hpc hd
-  exact ⟨s1, r1, f1, hfin, ho⟩
+      ∀ (pre seq : List Nat) (base mj : Nat), M.Sound seq base mj → callsOkL M seq base mj ts →
+        pre ++ e'.out ++ [mds_FINISH] <+: seq → SubPlays seq base mj M.dm pre.length (expL M nS nM ts) := by
+  obtain ⟨e', he', h⟩ := stream_at M nS nM ts hl hm
+  refine ⟨e', he', fun pre seq base mj hS hc hp s0 hpc hd => ?_⟩
+  obtain ⟨s1, r1, f1, hpc1, ho⟩ := h pre seq base mj s0 hS hc (b := mds_FINISH) (by decide) hp hpc hd
+  refine ⟨s1, r1, f1, ?_, ho⟩
+  rw [hpc1]
+  have : (pre ++ e'.out) ++ mds_FINISH :: [] <+: seq := hp
+  simpa using rd_at this
 
-theorem step_pat {seq : List Nat} {base mj : Nat} {s : St} {k t : Nat} (h : seq[s.pc]? = some mds_PAT)
-    (h1 : seq[s.pc + 1]? = some k) (ht : slotTarget seq base k = some t) :
-    step seq base mj s = .ok { s with pc := t, calls := (s.pc + 2, none) :: s.calls } := by
-  simp [step, rd, h, h1, ht, mds_REST, mds_SLR, mds_FINISH, mds_DMFINISH, mds_JUMP, mds_LP, mds_LPF, mds_LPB, mds_LPBL,
-    mds_PAT]
+/-- the mode of a drum routine's own commands: drum flag on, no routine known (a routine contains
+no note before its first note) -/
+def Mode.drum0 : Mode := ⟨true, fun _ => none⟩
 
-theorem step_return {seq : List Nat} {base mj : Nat} {s : St} {ret : Nat}
-    {cs : List (Nat × Option (Nat × Option Nat × Option Nat))}
-    (h : seq[s.pc]? = some mds_FINISH) (hc : s.calls = (ret, none) :: cs) :
-    step seq base mj s = .ok { s with pc := ret, calls := cs, lastNote := none, lastRest := none } := by
-  simp [step, rd, h, hc, mds_REST, mds_SLR, mds_FINISH]
+theorem Mode.drum0_sound (seq : List Nat) (base mj : Nat) : Mode.drum0.Sound seq base mj := by
+  intro j C k h; simp [Mode.drum0] at h
 
-/-- the encoder at a subroutine call: two bytes, both registers forgotten -/
-def afterPAT (e : Enc) (arg : Nat) : Enc :=
-  { e with out := e.out ++ [mds_PAT, arg % 256], lastRest := U16, lastNote := U16, lastType := mds_PAT }
-
-theorem encEv_pat (nS nM : Nat) (e : Enc) (arg : Nat) : encEv nS nM e ⟨mds_PAT, arg⟩ = .ok (afterPAT e arg) := by
-  have n1 : ¬ (mds_PAT = mds_SEGNO) := by decide
-  have n2 : ¬ (mds_PAT = mds_SLR ∨ mds_PAT = mds_FINISH) := by decide
-  have n3 : byteArgOps.contains mds_PAT = false := by decide
-  have n4 : ¬ (mds_PAT = mds_MTAB) := by decide
-  have n5 : ¬ (mds_PAT = mds_INS ∨ mds_PAT = mds_PCM) := by decide
-  have n6 : ¬ (mds_PAT = mds_PEG) := by decide
-  have n7 : wordArgOps.contains mds_PAT = false := by decide
-  have n8 : ¬ (mds_PAT = mds_JUMP) := by decide
-  have h : encOther nS nM e mds_PAT arg =
-      .ok { e with out := e.out ++ [mds_PAT, arg % 256], lastRest := U16, lastNote := U16 } := by
-    simp only [encOther, n1, n2, n3, n4, n5, n6, n7, n8, if_false, Bool.false_eq_true, if_true]
-  exact encEv_other (by decide) h
-
-/-- **the call / return join point** -/
-theorem pat_good {seq : List Nat} {base mj : Nat} {e : Enc} {s : St} {O : List Tk} (g : Good e s O) (arg : Nat)
-    (hp : (afterPAT e arg).out <+: seq) {t : Nat} (ht : slotTarget seq base (arg % 256) = some t) {T : List Tk}
-    (hsub : SubPlays seq base mj t T) :
-    ∃ s', Reach seq base mj s s' ∧ Frame s s' ∧ Good (afterPAT e arg) s' (T.reverse ++ O) := by
-  have hp' : e.out ++ [mds_PAT, arg % 256] <+: seq := hp
-  obtain ⟨s1, r1, f1, i1⟩ := resolve (base := base) (mj := mj) g (b := mds_PAT) (by decide) hp'
-  have r0 : seq[s1.pc]? = some mds_PAT := by rw [i1.pc]; exact rd_at hp'
-  have r1' : seq[s1.pc + 1]? = some (arg % 256) := by rw [i1.pc]; exact rd_at1 hp'
-  have hs := step_pat (base := base) (mj := mj) r0 r1' ht
-  obtain ⟨s2, hs2, hpc2, hca2, hlo2, hdr2, hju2, hou2⟩ : ∃ s2 : St, step seq base mj s1 = .ok s2 ∧ s2.pc = t ∧
-      s2.calls = (s1.pc + 2, none) :: s1.calls ∧ s2.loops = s1.loops ∧ s2.drum = s1.drum ∧ s2.jumps = s1.jumps ∧
-      s2.out = s1.out := ⟨_, hs, rfl, rfl, rfl, rfl, rfl, rfl⟩
-  obtain ⟨s3, r3, f3, hfin, ho3⟩ := hsub s2 hpc2 (hdr2.trans i1.drum)
-  have hret := step_return (base := base) (mj := mj) hfin (f3.calls.trans hca2)
-  obtain ⟨s4, hs4, hpc4, hn4, hr4, hca4, hlo4, hdr4, hju4, hou4⟩ : ∃ s4 : St, step seq base mj s3 = .ok s4 ∧
-      s4.pc = s1.pc + 2 ∧ s4.lastNote = none ∧ s4.lastRest = none ∧ s4.calls = s1.calls ∧ s4.loops = s3.loops ∧
-      s4.drum = s3.drum ∧ s4.jumps = s3.jumps ∧ s4.out = s3.out := ⟨_, hret, rfl, rfl, rfl, rfl, rfl, rfl, rfl, rfl⟩
-  refine ⟨s4, r1.trans (.head hs2 (by rw [hou2]; exact Nat.le_refl _) (r3.trans (.one hs4 (by rw [hou4]; exact Nat.le_refl _)))),
-    ⟨?_, ?_, ?_, ?_⟩, ⟨fun h => absurd rfl h, fun h => absurd rfl h, ?_, .inl ⟨?_, ?_, ?_⟩⟩⟩
-  · rw [hlo4, f3.loops, hlo2]; exact f1.loops
-  · rw [hca4]; exact f1.calls
-  · rw [hdr4, f3.drum, hdr2]; exact f1.drum
-  · rw [hju4, f3.jumps, hju2]; exact f1.jumps
-  · rw [hdr4, f3.drum, hdr2]; exact i1.drum
-  · exact needLenB_cmd (show mds_PAT ≥ 0xe0 by decide)
-  · rw [hpc4, i1.pc]; simp [afterPAT]
-  · rw [hou4, ho3, hou2, i1.out]
+/-- **a drum routine at an arbitrary offset**: the commands before its first note, then `DMFINISH k` -/
+theorem routine_at (nS nM : Nat) (ts : List Node) (hl : linL ts = true) (hm : mokL Mode.drum0 false ts = true) (k : Nat) :
+    ∃ e', encL nS nM ts {} = .ok e' ∧
+      ∀ (pre seq : List Nat) (base mj : Nat), callsOkL Mode.drum0 seq base mj ts →
+        pre ++ e'.out ++ [mds_DMFINISH, k] <+: seq →
+        DrumPlays seq base mj pre.length (expL Mode.drum0 nS nM ts) k := by
+  obtain ⟨e', he', h⟩ := stream_at Mode.drum0 nS nM ts hl hm
+  refine ⟨e', he', fun pre seq base mj hc hp s0 hpc hd => ?_⟩
+  obtain ⟨s1, r1, f1, hpc1, ho⟩ := h pre seq base mj s0 (Mode.drum0_sound _ _ _) hc (b := mds_DMFINISH) (by decide)
+    hp hpc hd
+  have hp' : (pre ++ e'.out) ++ mds_DMFINISH :: k :: [] <+: seq := hp
+  refine ⟨s1, r1, f1, ?_, ?_, ho⟩
+  · rw [hpc1]; simpa using rd_at hp'
+  · rw [hpc1]; simpa using rd_at1 hp'
 
 end Ctrmml.Codec
